@@ -53,6 +53,8 @@ CountAfter(nodes, f, n) ==
     [] f = "empty" -> IF nodes[n].k = "a" THEN N ELSE N - (Size(nodes, n) - 1 - Attrs(nodes, n))
     [] OTHER -> N
 
-\* two faults can be applied independently when their subtrees do not overlap
-Disjoint(nodes, n1, n2) == Last(nodes, n1) < n2 \/ Last(nodes, n2) < n1
+\* two faults can be applied independently when the spans of text they touch do not overlap
+\* (a swap also moves the next sibling)
+SpanEnd(nodes, f, n) == IF f = "swap" /\ NextSibling(nodes, n) # 0 THEN Last(nodes, NextSibling(nodes, n)) ELSE Last(nodes, n)
+Disjoint(nodes, f1, n1, f2, n2) == SpanEnd(nodes, f1, n1) < n2 \/ SpanEnd(nodes, f2, n2) < n1
 =============================================================================
